@@ -118,7 +118,7 @@ pub fn c03_k(ctx: &mut Ctx, k: usize) {
 pub fn c03(ctx: &mut Ctx) {
     let mut sh = ctx.shard;
     // largest k first so that the long ones start early on separate shards
-    for k in (1..=10usize).rev() {
+    for k in (1..=ctx.pick(10usize, 12)).rev() {
         if sh.mine() {
             c03_k(ctx, k);
         }
@@ -277,7 +277,7 @@ fn c04_file(ctx: &mut Ctx, k: usize, records: &[Vec<u8>], mode: &str, threads: u
 
 pub fn c04(ctx: &mut Ctx) {
     // per-record function, small scope
-    let l = ctx.pick(8, 10);
+    let l = ctx.pick(8, 11);
     let sets: Vec<OligoSet> = (1..=8).map(oligo_set).collect();
     let mut sh = ctx.shard;
     let mut todo: Vec<Vec<u8>> = Vec::new();
@@ -510,7 +510,7 @@ pub fn cgr_record_sets() -> Vec<(&'static str, Vec<Vec<u8>>)> {
 pub fn c11(ctx: &mut Ctx) {
     let comps: Vec<(usize, CgrComputer)> = CGR_SIZES.iter().map(|&s| (s, CgrComputer::new("-".into(), "-".into(), s))).collect();
     // clean strings
-    let l = ctx.pick(9, 11);
+    let l = ctx.pick(10, 13);
     let mut sh = ctx.shard;
     let mut todo: Vec<Vec<u8>> = Vec::new();
     for_each_string(S4, 0, l, |s| {
@@ -694,7 +694,7 @@ fn c12_file(ctx: &mut Ctx, records: &[Vec<u8>], k: usize, s_size: usize, norm: b
 
 pub fn c12(ctx: &mut Ctx) {
     let sizes = [1usize, 4, 16, 49, 1 << 20];
-    let small: Vec<Vec<u8>> = strings(S5, 0, ctx.pick(6, 7));
+    let small: Vec<Vec<u8>> = strings(S5, 0, ctx.pick(6, 8));
     let ps = strings(S5, 0, 2);
     let units = strings(S4, 1, 2);
     let mut sh = ctx.shard;
